@@ -91,10 +91,17 @@ CanCbe(t) == Len(stack) > 0 /\ Top.k = "cb" /\ Top.t = t
 DoCbe(t) == /\ stack' = SubSeq(stack, 1, Len(stack) - 1)
             /\ UNCHANGED <<req, chan>>
 
-(* an API call may return only when what it owes has been delivered *)
+(* an API call may return only when what it owes has been delivered.  One exception: a cancel issued from a callback
+   runs inside some other API call of the library; a request that this enclosing call is in the middle of working on
+   (it is between two of its internal steps) cannot be completed re-entrantly by the nested cancel.  What such a
+   nested cancel still owes is handed to the nearest enclosing API call, which must deliver it before it returns:
+   the application still gets every completion before control is back in its hands. *)
+EnclosingApis == {i \in 1..(Len(stack) - 1) : stack[i].k = "api"}
 CanRet(api) == /\ Len(stack) > 0 /\ Top.k = "api" /\ Top.api = api
-               /\ Top.owe = {}
-DoRet(api) == /\ stack' = SubSeq(stack, 1, Len(stack) - 1)
+               /\ (Top.owe = {} \/ (api = "cancel" /\ EnclosingApis # {}))
+DoRet(api) == /\ stack' = IF Top.owe = {} THEN SubSeq(stack, 1, Len(stack) - 1)
+                          ELSE LET j == CHOOSE i \in EnclosingApis : \A k \in EnclosingApis : k <= i
+                               IN [SubSeq(stack, 1, Len(stack) - 1) EXCEPT ![j].owe = @ \cup Top.owe]
               /\ chan' = IF api = "destroy" THEN "destroyed" ELSE chan
               /\ UNCHANGED req
 
